@@ -85,6 +85,13 @@ def generate(seed, tier="quick"):
         if res == "unspec":
             continue
         tasks.append(op)
+    # every synapse of a type as one task: with interleaved types each row must still report its own synapse
+    for s_ in list(dw.ref.syns):
+        if o.random() < 0.6:
+            st = o.choice(list(s_["states"]) + [f"i_{s_['name']}"])
+            op = {"op": "record", "view": [["syn", s_["name"]]], "state": st}
+            if dw.dry_apply(op) == "accept":
+                tasks.insert(o.randrange(len(tasks) + 1), op)
     if not dw.ref.recordings:
         op = {"op": "record", "view": [], "state": "v"}
         dw.dry_apply(op)
@@ -100,7 +107,8 @@ def generate(seed, tier="quick"):
     o.shuffle(order)
     return {"prop": PROPERTY, "shape": shape, "ops": ops, "tasks": tasks, "order": order, "T": T, "dt": o.choice(DTS),
             "solver": o.choice(["bwd_euler", "bwd_euler", "crank_nicolson"]), "vsolver": o.choice(["jaxley.stone", "jaxley.thomas", "jax.sparse"]),
-            "mode": o.choice(["eager", "eager", "jit"]), "data_api": o.random() < 0.6, "explicit_tmax": o.random() < 0.6}
+            "mode": o.choice(["eager", "eager", "jit"]), "data_api": o.random() < 0.6, "explicit_tmax": o.random() < 0.6,
+            "geometry_at_runtime": o.choice([0, 0, 1, 2, 3])}
 
 
 def build(program, task_order, rewrite=None):
@@ -322,6 +330,33 @@ def execute(program):
                 w.violate("data_api_equal", f"data_stimulate/data_clamp differ from stimulate/clamp by {simrun.maxdiff(out[mask], out3[mask]):.3e}", nidx)
                 return res()
 
+    # 6c. "whatever its geometry": the geometry of a stimulated compartment supplied at integrate time (data_set)
+    #     must give the same simulation as the same geometry stored in the tables
+    if program.get("geometry_at_runtime") and ref.externals.get("i"):
+        t = ref.externals["i"][program["geometry_at_runtime"] % len(ref.externals["i"])][0]
+        r2 = round(ref.cols["radius"][t] * 1.7 + 0.11, 6)
+        l2 = round(ref.cols["length"][t] * 0.6 + 1.3, 6)
+        with quiet():
+            ps = w.m.select(nodes=[t]).data_set("radius", r2, None)
+            ps = w.m.select(nodes=[t]).data_set("length", l2, ps)
+        try:
+            out5 = integ(w, program, T, param_state=ps)
+        except HarnessError:
+            raise
+        except Exception as e:  # noqa: BLE001
+            w.violate("charge_accounting", f"integrate with data_set geometry raised {exc_text(e)}", nidx)
+            return res()
+        w5 = build(program, canonical)
+        for key, val in (("radius", r2), ("length", l2)):
+            apply_op(w5, {"op": "set", "view": [["select_nodes", {"t": "list", "v": [t]}]], "key": key, "val": val}, nidx)
+        if not w5.violations and not w5.stopped:
+            out6 = integ(w5, program, T)
+            w.bump("oracle_runtime_geometry")
+            if out5.shape != out6.shape or not simrun.close(out5[mask], out6[mask], **TOL_SAME):
+                w.violate("charge_accounting", f"stimulated compartment {t}: radius/length supplied through data_set give a result that differs by "
+                          f"{simrun.maxdiff(out5[mask], out6[mask]):.3e} from the same geometry stored in the tables (the injected charge must not depend on which way the geometry arrives)", nidx)
+                return res()
+
     # 6b. t_max == explicit zero-padding / truncation
     if program.get("explicit_tmax") and T is not None and ref.externals:
         def explicit(op):
@@ -353,7 +388,7 @@ def execute(program):
 
 
 def simplify(program):
-    for field, simple in (("solver", "bwd_euler"), ("dt", 0.025), ("mode", "eager"), ("vsolver", "jax.sparse"), ("data_api", False), ("explicit_tmax", False)):
+    for field, simple in (("solver", "bwd_euler"), ("dt", 0.025), ("mode", "eager"), ("vsolver", "jax.sparse"), ("data_api", False), ("explicit_tmax", False), ("geometry_at_runtime", 0)):
         if program.get(field) != simple:
             q = copy.deepcopy(program)
             q[field] = simple
